@@ -523,7 +523,13 @@ class StructuredTypeMarshaller(AbstractMarshaller[_ST]):
             val: The structured type to marshal.
         """
         fields = self.fields_by_var
-        return {f: fields[f](v) for f, v in serdes.iteritems(val) if f in fields}
+        # (The key we emit is the declared name: a key of the input which merely equals
+        #   it - a `StrEnum` member, say - is not plain data.)
+        return {
+            f if f.__class__ is str else str.__str__(f): fields[f](v)
+            for f, v in serdes.iteritems(val)
+            if f in fields
+        }
 
 
 MarshalledMappingT: tp.TypeAlias = dict[
